@@ -211,8 +211,8 @@ JPerpOk(r, x, n, f) == LET nn == DvDot(n, n) xn == DvDot(x, n) da == DvDotAbs(x,
 \* orthonormalize(x, y) = normalize(x - y * dot(y, x)): the difference carries e_i = 4 eps (|x_i| + |y_i| sum|y_j x_j|)
 JOrtho2Dir(x, y) == DvSub(x, DvScale(y, DvDot(y, x)))
 JOrtho2Err(x, y, f) == LET da == DvDotAbs(y, x) IN [i \in 1..Len(x) |-> DTol(4, DAdd(DAbs(x[i]), DMul(DAbs(y[i]), da)), f)]
-JOrtho2Ok(r, x, y, f) == LET w == JOrtho2Dir(x, y) e == JOrtho2Err(x, y, f)
-                         IN JDirOf(r, w, e, 7, f) /\ JOrthoAfterNormalize(r, y, w, e, 7, f)
+JOrtho2Ok(r, x, y, f) == \E w \in {JOrtho2Dir(x, y)} : \E e \in {JOrtho2Err(x, y, f)} : \E rr \in {r} : \E yy \in {y} :
+                         JDirOf(rr, w, e, 7, f) /\ JOrthoAfterNormalize(rr, yy, w, e, 7, f)
 \* orthonormalize(mat3) = Gram-Schmidt.  Directions scaled by positive factors to stay division-free:
 \*   W1 = |m0|^2 m1 - (m0.m1) m0 = |m0|^2 w1,      W2 = |m0|^2 |W1|^2 m2 - |W1|^2 (m0.m2) m0 - |m0|^2 (W1.m2) W1 = |m0|^2 |W1|^2 w2
 \* Well conditioned (every column keeps at least half of its length after the projections are removed, |w_k|^2 >= |m_k|^2 / 4):
@@ -223,7 +223,8 @@ JGS2(m0, m1, m2) == LET W1 == JGS1(m0, m1) a == DvDot(m0, m0) b == DvDot(W1, W1)
                     IN DvSub(DvSub(DvScale(m2, DMul(a, b)), DvScale(m0, DMul(b, DvDot(m0, m2)))), DvScale(W1, DMul(a, DvDot(W1, m2))))
 JOrtho3WellCond(m0, m1, m2) ==
     LET a == DvDot(m0, m0) W1 == JGS1(m0, m1) b == DvDot(W1, W1) W2 == JGS2(m0, m1, m2)
-    IN /\ DLe(DMul(DvDot(m1, m1), DSq(a)), DMulInt(b, 4))
+    IN /\ DSign(a) > 0 /\ DSign(b) > 0 /\ ~DvIsZero(W2)
+       /\ DLe(DMul(DvDot(m1, m1), DSq(a)), DMulInt(b, 4))
        /\ DLe(DMul(DvDot(m2, m2), DSq(DMul(a, b))), DMulInt(DvDot(W2, W2), 4))
 JOrtho3Ok(r0, r1, r2, m0, m1, m2, f) ==
     LET unit(v) == DNear(DvDot(v, v), DUnit, DTol(8, DUnit, f))
@@ -260,8 +261,8 @@ JClosestMayMid(p, a, b, f) == LET num == JClosestNum(p, a, b) td == JClosestTauD
                               IN DLe(DNeg(td), num) /\ DLe(num, DAdd(JClosestDen(a, b), td))
 
 \* cosine: partial sum S_n(r) = sum_{k<=n} (-1)^k r^(2k)/(2k)! evaluated exactly (Horner in x = r^2 with the common
-\* denominator (2n)!); for 0 <= r <= 3.2 the terms decrease from k = 1 on, so |cos r - S_n| <= 3.2^(2n+2)/(2n+2)!,
-\* which for n = 17 is 10.24^18 / 36! < 4.2e-24 < 2^-70.
+\* denominator (2n)!); for 0 <= r <= 3.25 the terms decrease from k = 1 on, so |cos r - S_n| <= 3.25^(2n+2)/(2n+2)!,
+\* which for n = 17 is 10.5625^18 / 36! < 7.3e-24 < 2^-70.
 JCosN == 17
 RECURSIVE JCosHorner(_, _, _, _)
 JCosHorner(x, k, c, acc) ==          \* c = (2n)!/(2k)!, acc = sum_{j>=k} (-1)^j c_j x^(j-k)
